@@ -77,7 +77,7 @@ func c11Pipeline(j c11Job, log func(stage int)) string {
 	if pr.Root == nil {
 		return sb.String() + "nil-root"
 	}
-	for _, op := range []string{"print", "dump+tokens+positions", "dump", "traverse(recording)", "resolve"} {
+	for _, op := range []string{"print", "dump(failing-writer)", "dump+tokens+positions", "print(failing-writer)", "dump", "traverse(recording)", "resolve"} {
 		out, p := c13Run(op, pr.Root, src)
 		if p != nil {
 			out = "panic:" + p.Sig
@@ -481,8 +481,8 @@ func init() {
 			"the race detector only reports races on interleavings that actually occur; the stage-event log of the uninstrumented-for-race main run shows how diverse they were",
 			"pipeline results are compared through hashes of the printed text, two dumps, the visitor-method sequence and the sorted resolved names, plus the literal error list",
 		},
-		Plan:          func(p core.Params) int { return p.Pick(2200, 200000) },
-		Twins:         []string{"C11R"},
+		Plan:  func(p core.Params) int { return p.Pick(2200, 200000) },
+		Twins: []string{"C11R"},
 		Run: func(c *core.Ctx, idx int) {
 			if idx%4 == 3 {
 				c11Predecessors(c, idx)
